@@ -10,6 +10,10 @@ INJECT = {
     "sta-rs": [("star/src/lib.rs", "kani/star.rs", "verif_kani")],
     "ppoprf": [("ppoprf/src/ppoprf.rs", "kani/ppoprf.rs", "verif_kani")],
 }
+# crate-level attributes some harness modules need (prepended to the crate root in the scratch copy)
+PREPEND = {
+    "star-sharks": ("sharks/src/lib.rs", "#![cfg_attr(kani, feature(allocator_api))]\n"),
+}
 _injected = set()
 
 def inject(repo_copy, package):
@@ -25,6 +29,12 @@ def inject(repo_copy, package):
             raise ToolError("lost anchor: %s does not exist" % rel)
         with open(p, "a") as f:
             f.write('\n#[cfg(kani)] #[path = "%s"] mod %s;\n' % (src, name))
+    if package in PREPEND:
+        rel, text = PREPEND[package]
+        p = os.path.join(repo_copy, rel)
+        src = open(p).read()
+        # crate attributes must come first: put ours before everything (inner doc comments are fine after)
+        open(p, "w").write(text + src)
     _injected.add(key)
 
 def _run(cmd, cwd, timeout, mem_gb=24):
@@ -97,6 +107,22 @@ def run_harnesses(repo_copy, workdir, harnesses, tier):
                 results.append((h, {"status": "TIMEOUT" if to else "ERROR", "wall_s": wall, "tail": out[-1500:]}))
                 continue
             st = "SUCCESSFUL" if r["status"] == "SUCCESSFUL" else "FAILED"
+            fc = [l for l in r.get("failed_checks", "").splitlines() if l.startswith("Failed Checks")]
+            if st == "FAILED" and fc and all("unwinding assertion" in l for l in fc) and not h.get("expect_fail"):
+                # the bound of the harness is too small for the (changed) code: inconclusive, never an alarm.
+                # retry once with a larger global bound
+                cmd2 = ["cargo", "kani", "-p", pkg, "--output-format=terse", "--harness", h["harness"], "--unwind", "30"] + list(flags)
+                out2, wall2, to2, rc2 = _run(cmd2, repo_copy, h.get("timeout", 300) + 120)
+                r2 = parse(out2).get(h["harness"], {})
+                fc2 = [l for l in r2.get("failed_checks", "").splitlines() if l.startswith("Failed Checks")]
+                if r2.get("status") == "SUCCESSFUL":
+                    r = r2; st = "SUCCESSFUL"
+                elif r2.get("status") and fc2 and not all("unwinding assertion" in l for l in fc2):
+                    r = r2; st = "FAILED"
+                else:
+                    results.append((h, {"status": "INCONCLUSIVE(unwinding bound)" if not to2 else "TIMEOUT", "wall_s": wall + wall2,
+                                        "failed_checks": r.get("failed_checks", ""), "stubs": r.get("stubs", []), "tail": ""}))
+                    continue
             ent = {"status": st, "wall_s": r.get("time", 0.0), "failed_checks": r.get("failed_checks", ""),
                    "stubs": r.get("stubs", []), "tail": ""}
             if st == "FAILED" and not h.get("expect_fail"):
